@@ -61,7 +61,13 @@ def _worker(args):
         rng = run_rng(seed, prop, i)
         try:
             vs = mod.explore(rng, tier, stats)
-        except Exception:
+        except Exception as e:
+            if _world_refused(e):
+                # the library refused to construct an unusual-but-so-far-legal object of this world (a labware name
+                # with a tab in it, say): nothing to simulate, nothing to judge
+                stats.probes["world_refused_by_a_constructor"] += 1
+                stats.last_exec = None
+                continue
             errors.append((i, traceback.format_exc()))
             continue
         for v in vs:
@@ -135,6 +141,23 @@ def run_replay(mod, spec):
         return mod.replay(json.loads(json.dumps(base)))
     finally:
         rtmod.KEEP_STATE = False
+
+
+def _world_refused(exc):
+    """True if exc was raised inside the library while the harness was constructing the labware / worklist objects
+    of a world (sim/world.py build_labware / build_worklist)."""
+    from . import rt as rtmod
+
+    tb = exc.__traceback__
+    in_builder = False
+    last = None
+    while tb is not None:
+        code = tb.tb_frame.f_code
+        if code.co_name in ("build_labware", "build_worklist") and code.co_filename.endswith(os.path.join("sim", "world.py")):
+            in_builder = True
+        last = tb
+        tb = tb.tb_next
+    return bool(in_builder and last is not None and last.tb_frame.f_code.co_filename.startswith(rtmod.PKG_PREFIX))
 
 
 def replay_file(prop, path):
@@ -482,6 +505,10 @@ def main(argv=None):
         for idx, tb in errors[:5]:
             print(f"HARNESS-FAULT run={idx}: {tb}", file=sys.stderr)
         print(f"HARNESS-FAULT: {len(errors)} harness error(s); see stderr")
+        return 1 if exit_code == 1 else 2
+    refused = total.probes.get("world_refused_by_a_constructor", 0)
+    if refused > 0.5 * max(runs, 1):
+        print(f"HARNESS-FAULT: the library refused to construct the objects of {refused} of {runs} worlds")
         return 1 if exit_code == 1 else 2
     if runs < MIN_RUNS and not a.max_runs and not a.stop_at_first:
         print(f"HARNESS-FAULT: only {runs} runs completed (floor {MIN_RUNS})")
